@@ -6,6 +6,9 @@ HOOKS = {
     'add_only': True,
 }
 ENGINES = [
+    {'name': 'cxx-history', 'path': 'cxx/common/mc.h + cxx/common/isolate.h + lib/runner.py',
+     'serves_properties': ['C10'],
+     'kind_free_text': 'explicit-state / small-scope exploration of operation histories on freshly constructed real objects (bounds-checking brokers, step counters, forked isolation under ASan/UBSan)'},
     {'name': 'cxx-sweep', 'path': 'cxx/common/verif.h + lib/runner.py',
      'serves_properties': ['C01', 'C02', 'C06', 'C07'],
      'kind_free_text': 'sharded exhaustive enumeration of a finite input domain, executed on the real C++ classes built from /repo/src through an Arduino shim'},
@@ -26,4 +29,7 @@ CHECKS = {
     'C07': dict(engine='cxx-sweep', category='exploration', technique='bounded-exhaustive enumeration of all wall-clock minutes around every transition, oracle pre-image sets',
                 text='Both processors x every zone x every zic transition of 2000..2049 x every wall-clock minute within 200 min of it (all gap and overlap minutes) plus a regular wall-clock grid: ZonedDateTime::forComponents is compared with the exact pre-image set computed from the zic table (unique -> identity, overlap -> an occurrence / the later for extended, gap -> pre-gap offset) and must be normalised.',
                 note='same oracle trust as C01; the quantifier (minutes near transitions) is finite and completely enumerated, far-from-transition wall times are covered by the grid only.', thorough=True),
+    'C10': dict(engine='cxx-history', category='model_checking', technique='small-scope exhaustive exploration: every registry of size 0..40 x every lookup, on the real templates with bounds-checking broker and step counter',
+                text='All registries of size 0..40 drawn from the shipped zones (3 sorted bases x sorted / reversed / rotated / every adjacent swap, both databases) x every present name, absent names below / between every adjacent pair / above, prefixes, extensions, case changes, every id and id+-1, every index 0..n+1 and 0xFFFF are looked up through the real ZoneManagerImpl/ZoneRegistrar templates instantiated with a registry broker that traps any slot index >= n and a comparator that traps after 4n+64 comparisons, compared with a linear scan. The protected binary/linear searches are also called directly on every sorted registry (below the size-6 threshold too). The stock manager typedefs are then driven on the two full registries and selected sizes in forked children under ASan with a watchdog.',
+                note='registries with duplicate names are not enumerated; sizes above 40 only through the two shipped registries (387, 268).', thorough=False),
 }
